@@ -9,7 +9,7 @@ from vlib import log
 FAMS = {
     "C01": (["order", "gates", "crashfn"], ["order", "gates", "tolerance", "cont", "crash", "crashfn", "crash2fn"]),
     "C02": (["tolerance", "order"], ["tolerance", "order", "big"]),
-    "C03": (["tolerance", "crashfn"], ["tolerance", "big", "cont", "crash", "crashfn"]),
+    "C03": (["tolerance", "crashfn", "crashpost"], ["tolerance", "big", "cont", "crash", "crashfn", "crashpost", "crashchk"]),
     "C04": (["tolerance", "gates", "contq"], ["tolerance", "gates", "cont", "order", "big", "live"]),
     "C05": (["retry", "retryov"], ["retry", "retrychk", "retryov", "retrychkov"]),
     "C06": (["gates", "crashchkfn"], ["gates", "gates2", "crashchk", "crashchkfn"]),
